@@ -5,7 +5,8 @@
    Maintain (TabletsInfo::perform_maintenance) events, starting from TabletsInfo::new();
    [None] would be a Rust panic.  [Forall op_i64 hist] says that the two bounds of every payload
    are i64 values (they are decoded from 8 bytes). *)
-From SV Require Import Base.Prelude Model.Tablets Proofs.Tablets_proofs.
+From SV Require Import Base.Prelude Base.Bytes Model.Cql Model.Tablets Model.TabletsPayload
+  Proofs.Tablets_proofs Proofs.TabletsPayload_proofs.
 Open Scope Z_scope.
 
 (* the code never panics: Vec::drain(left_idx..right_idx) always gets left_idx <= right_idx *)
@@ -132,6 +133,69 @@ Theorem C15_no_stale_nodes : forall known0 h s k tok t r,
   lookup_tablet s k tok = Some t -> In r (r_all (t_reps t)) -> In (fst r) (cluster_known known0 h).
 Proof. exact cluster_no_stale_nodes. Qed.
 
+(* ---- byte level: RawTablet::from_custom_payload on the bytes of the "tablets-routing-v1" value ---- *)
+
+(* an accepted byte string decodes to bounds a < bb that are i64 values and yields exactly [a+1, bb];
+   it is an accepted value-level payload (payload_check) with the decoded replicas *)
+Theorem C15_payload_bytes : forall b f l r,
+  bytes_ok b -> parse_payload b = P_Ok f l r ->
+  exists a bb, i64_ok a /\ i64_ok bb /\ a < bb /\ f = a + 1 /\ l = bb /\ i64_ok f /\ f <= l /\
+    (exists cnt, parse_header b = Ok (a, bb, cnt)) /\
+    payload_check a bb (map (fun hs => (fst hs, Z.of_N (snd hs))) r) = Ok (f, l, r).
+Proof. exact parse_payload_ok. Qed.
+
+(* bounds that decode with last <= first are refused as WrongTokenRange before any replica is read *)
+Theorem C15_payload_bytes_range : forall b, bytes_ok b ->
+  forall a bb cnt, parse_header b = Ok (a, bb, cnt) -> bb <= a -> parse_payload b = P_WrongTokenRange.
+Proof. exact parse_payload_range. Qed.
+
+(* the fuel of the replica loop (a model artefact) is never exhausted *)
+Theorem C15_payload_bytes_no_fuel : forall b, parse_payload b <> P_Deser DE_OutOfFuel.
+Proof. exact parse_payload_no_fuel. Qed.
+
+(* a byte payload acts on the tablets exactly as the value-level event [learn_of_bytes] ... *)
+Theorem C15_bytes_as_learn : forall s k b known,
+  bytes_ok b -> step_bytes s k b known = step s (learn_of_bytes k b known) /\ op_i64 (learn_of_bytes k b known).
+Proof. exact step_bytes_learn. Qed.
+
+(* ... so histories of byte payloads are histories, and every theorem above applies to them *)
+Theorem C15_bytes_histories : forall h,
+  Forall bop_ok h -> run_b h = run (map abstract_bop h) /\ Forall op_i64 (map abstract_bop h).
+Proof. exact run_b_abstract. Qed.
+
+Theorem C15_bytes_inv : forall h s k tt,
+  Forall bop_ok h -> run_b h = Some s -> find_table s k = Some tt -> tablets_inv (tt_list tt).
+Proof. exact run_b_inv. Qed.
+
+Theorem C15_bytes_lookup : forall h s k tok,
+  Forall bop_ok h -> run_b h = Some s -> lookup s k tok = spec_lookup (map abstract_bop h) k tok.
+Proof. exact run_b_lookup. Qed.
+
+(* ---- several tables ---- *)
+
+(* a payload for one table touches no other table; for a table the driver has no entry for, an
+   accepted payload creates the entry holding exactly that tablet; a refused one changes nothing *)
+Theorem C15_learn_tables : forall h s k0 a b raw known s',
+  Forall op_i64 h -> run h = Some s -> i64_ok a -> i64_ok b ->
+  step s (Learn k0 a b raw known) = Some s' ->
+  (forall k, k <> k0 -> find_table s' k = find_table s k) /\
+  (spec_payload_ok a b raw = false -> s' = s) /\
+  (spec_payload_ok a b raw = true -> find_table s k0 = None ->
+   exists t fl, find_table s' k0 = Some (mkTT [t] fl) /\ t_first t = a + 1 /\ t_last t = b /\
+                r_all (t_reps t) = spec_resolved known (map (fun hs => (fst hs, Z.to_N (snd hs))) raw)).
+Proof. exact learn_tables. Qed.
+
+(* maintenance acts on every table on its own, tablet by tablet; a table that is not a table or view
+   of a tablet keyspace loses all its tablets and (unique keyspace names) its entry *)
+Theorem C15_maintain_tables : forall h kss removed current recreated s s' k,
+  Forall op_i64 h -> run h = Some s -> step s (Maintain kss removed current recreated) = Some s' ->
+  tt_list (or_empty (find_table s' k)) =
+    (if keep_table kss k
+     then filter_map (maint_tablet removed current recreated) (tt_list (or_empty (find_table s k)))
+     else []) /\
+  (NoDup (map ks_name kss) -> is_some (find_table s' k) = keep_table kss k).
+Proof. exact maintain_tables. Qed.
+
 (* non-vacuity: concrete histories meeting the hypotheses, with non-trivial outcomes *)
 Definition ex_n1 := mkNode 1 0 (Some 0%N).
 Definition ex_n2 := mkNode 2 0 (Some 1%N).
@@ -200,6 +264,64 @@ Example C15_ex_cluster :
     lookup s (1, 1)%N 5 = Some [(ex_n1', 0%N); (mkNode 3 0 None, 1%N)] /\ lookup s (1, 1)%N 15 = None /\
     lookup_dc s (1, 1)%N 5 1 = Some [(ex_n1', 0%N)] /\ lookup_dc s (1, 1)%N 5 0 = Some [].
 Proof. split; [reflexivity|]. eexists. split; [vm_compute; reflexivity|]. repeat split; vm_compute; reflexivity. Qed.
+
+Example C15_ex_bytes :
+  let u7 := 7%N in
+  (* what ScyllaDB sends for (99, 100, [(7, 3)]): accepted as the single-token tablet [100, 100] *)
+  parse_payload (enc_payload 99 100 [(u7, 3)]) = P_Ok 100 100 [(u7, 3%N)] /\
+  parse_payload (enc_payload (2 ^ 63 - 2) (2 ^ 63 - 1) []) = P_Ok (2 ^ 63 - 1) (2 ^ 63 - 1) [] /\
+  parse_payload (enc_payload 100 100 []) = P_WrongTokenRange /\
+  parse_payload (enc_payload (2 ^ 63 - 1) (- 2 ^ 63) []) = P_WrongTokenRange /\
+  parse_payload (enc_payload 0 1 [(u7, -1)]) = P_ShardNum /\
+  (* empty value, trash, one field only, a 7-byte bound *)
+  parse_payload [] = P_Deser DE_ExpectedNonNull /\
+  parse_payload [1; 2; 3]%N = P_Deser DE_RawCqlBytesRead /\
+  parse_payload (framed (enc_signed 8 5)) = P_Deser DE_ExpectedNonNull /\
+  parse_payload (framed (enc_signed 7 5) ++ framed (enc_signed 8 9)) = P_Deser DE_ByteLengthMismatch /\
+  (* two fields only / a null list: no replicas; trailing bytes are ignored *)
+  parse_payload (framed (enc_signed 8 5) ++ framed (enc_signed 8 9)) = P_Ok 6 9 [] /\
+  parse_payload (framed (enc_signed 8 5) ++ framed (enc_signed 8 9) ++ null_marker) = P_Ok 6 9 [] /\
+  parse_payload (enc_payload 5 9 [] ++ [1; 2; 3]%N) = P_Ok 6 9 [] /\
+  (* order of the checks: the range is checked before the replicas are read; among the replicas the
+     first failing one decides *)
+  parse_payload (framed (enc_signed 8 9) ++ framed (enc_signed 8 5) ++ framed (be32 1 ++ [0]%N)) = P_WrongTokenRange /\
+  parse_payload (framed (enc_signed 8 5) ++ framed (enc_signed 8 9) ++ framed (be32 1 ++ [0]%N)) = P_Deser DE_RawCqlBytesRead /\
+  parse_payload (framed (enc_signed 8 5) ++ framed (enc_signed 8 9) ++
+                 framed (be32 2 ++ enc_replica (u7, -1) ++ [0]%N)) = P_ShardNum /\
+  parse_payload (framed (enc_signed 8 5) ++ framed (enc_signed 8 9) ++
+                 framed (be32 2 ++ framed (framed (be_enc 15 u7)) ++ enc_replica (u7, -1))) = P_Deser DE_ByteLengthMismatch /\
+  (* a count of 2^31-1 with no element, a negative count *)
+  parse_payload (framed (enc_signed 8 5) ++ framed (enc_signed 8 9) ++ framed (enc_signed 4 (2 ^ 31 - 1))) = P_Deser DE_RawCqlBytesRead /\
+  parse_payload (framed (enc_signed 8 5) ++ framed (enc_signed 8 9) ++ framed (enc_signed 4 (-1))) = P_Deser DE_LengthDeser.
+Proof. repeat split; vm_compute; reflexivity. Qed.
+Example C15_ex_bytes_history :
+  let h := [ BLearn (1, 1)%N (enc_payload 0 10 [(1%N, 0); (2%N, 1)]) [ex_n1; ex_n2];
+             BLearn (1, 1)%N [1; 2; 3]%N [ex_n1; ex_n2];                       (* trash: ignored *)
+             BLearn (1, 2)%N (enc_payload 5 20 [(2%N, 4)]) [ex_n1; ex_n2];     (* a table not known yet *)
+             BOp (Maintain ex_schema [] [ex_n1; ex_n2] []) ] in               (* table (1,2) is not in the schema *)
+  Forall bop_ok h /\
+  exists s, run_b h = Some s /\ lookup s (1, 1)%N 5 = Some [(ex_n1, 0%N); (ex_n2, 1%N)] /\
+            find_table s (1, 2)%N = None /\
+            (exists s3, run_b (firstn 3 h) = Some s3 /\ lookup s3 (1, 2)%N 6 = Some [(ex_n2, 4%N)]) /\
+            learn_of_bytes (1, 1)%N (enc_payload 0 10 [(1%N, 0)]) [] = Learn (1, 1)%N 0 10 [(1%N, 0)] [] /\
+            learn_of_bytes (1, 1)%N [1; 2; 3]%N [] = Learn (1, 1)%N 0 0 [] [].
+Proof.
+  split.
+  - apply Forall_forall. intros o [<-|[<-|[<-|[<-|[]]]]]; cbn [bop_ok op_i64]; try exact I;
+      apply bytes_okb_ok; vm_compute; reflexivity.
+  - eexists. split; [vm_compute; reflexivity|]. repeat split; try (vm_compute; reflexivity).
+    eexists. split; vm_compute; reflexivity.
+Qed.
+Example C15_ex_overlapping_arguments :
+  (* a host that is removed AND recreated: its tablets are dropped (the removed check runs before the swap);
+     a pending tablet resolved against a current node that is also removed is dropped as well *)
+  let l1 := Learn (1, 1)%N 0 10 [(1%N, 0); (2%N, 1)] [ex_n1; ex_n2] in
+  let l2 := Learn (1, 1)%N 10 20 [(2%N, 0); (3%N, 0)] [ex_n1; ex_n2] in
+  (exists s, run [l1; Maintain ex_schema [1%N] [ex_n1'; ex_n2] [ex_n1']] = Some s /\ lookup s (1, 1)%N 5 = None) /\
+  (exists s, run [l2; Maintain ex_schema [3%N] [ex_n2; mkNode 3 0 None] []] = Some s /\ lookup s (1, 1)%N 15 = None) /\
+  (* duplicate keys in a map argument: the first entry counts (the harness builds the HashMap that way) *)
+  find_node [ex_n1; ex_n1'] 1 = Some ex_n1.
+Proof. split; [|split]; try (eexists; split; vm_compute; reflexivity); try reflexivity. Qed.
 
 (* anchors of the DEFINITIONS the theorems and the driver rely on: each specification function and
    each boolean property predicate evaluated on concrete inputs, accepting AND rejecting *)
@@ -299,3 +421,12 @@ Print Assumptions C15_flags.
 Print Assumptions C15_present.
 Print Assumptions C15_bsearch.
 Print Assumptions C15_no_stale_nodes.
+Print Assumptions C15_payload_bytes.
+Print Assumptions C15_payload_bytes_range.
+Print Assumptions C15_payload_bytes_no_fuel.
+Print Assumptions C15_bytes_as_learn.
+Print Assumptions C15_bytes_histories.
+Print Assumptions C15_bytes_inv.
+Print Assumptions C15_bytes_lookup.
+Print Assumptions C15_learn_tables.
+Print Assumptions C15_maintain_tables.
